@@ -980,7 +980,25 @@ def last_data_row_contract():
         k = z3.Int("k!ldi")
         return Conj([("rows-behind-are-empty", z3.ForAll([k], z3.Implies(z3.And(k > n - 1 - lc.i, k < n), z3.Not(row_non_empty(rows.elem(k))))))])
 
+    def inv_forward(names):
+        # the same traversal written front to back: the candidate kept in a local that is returned afterwards is the last row
+        # with data among the rows visited so far (stated for every returned integer local; a local for which it does not
+        # hold makes the proof fail behind the cut = `unknown`, never a violation)
+        def f(lc):
+            rows = lc.entry.lookup("rows")
+            k = z3.Int("k!ldf")
+            parts = []
+            for v in names:
+                cur = lc.st.lookup(v)
+                if isinstance(cur, VInt) and not isinstance(cur, VBool):
+                    t = ops.int_term(cur)
+                    parts.append(z3.And(t >= 0, t <= lc.i, z3.Implies(t > 0, row_non_empty(rows.elem(t - 1))),
+                                        z3.ForAll([k], z3.Implies(z3.And(k >= t, k < lc.i), z3.Not(row_non_empty(rows.elem(k)))))))
+            return Conj([("rows-behind-are-empty", z3.And(*parts) if parts else z3.BoolVal(True))])
+        return f
+
     spec = LoopSpec(inv=inv, label="rows")
+    fwd = {}
     c_ = FnContract(
         target=f"{XLSX}::_find_last_data_row",
         params=[("rows", p_rows())],
@@ -989,9 +1007,99 @@ def last_data_row_contract():
         loops={},
         note="trailing empty rows only are trimmed",
     )
-    c_.loop_finder = lambda ex, fnode, node: with_counters(spec, node) if isinstance(node, ast.For) and isinstance(node.iter, ast.Call) \
-        and ast.unparse(node.iter.func) in ("range", "reversed") else None
+
+    def finder(ex, fnode, node):
+        if not isinstance(node, ast.For):
+            return None
+        if iterates(fnode, node.iter, ("name", "rows")):
+            if id(fnode) not in fwd:
+                fwd[id(fnode)] = LoopSpec(inv=inv_forward(returned_names(fnode)), label="rows")
+            return with_counters(fwd[id(fnode)], node)
+        if isinstance(node.iter, ast.Call) and ast.unparse(node.iter.func) in ("range", "reversed"):
+            return with_counters(spec, node)
+        return None
+    c_.loop_finder = finder
     c_.loop_obligations = [("inv-init", "rows.rows-behind-are-empty"), ("inv-preserve", "rows.rows-behind-are-empty")]
+    return c_
+
+
+def returned_names(fnode):
+    """locals whose value is returned by `return <name>`"""
+    return sorted({n.value.id for n in ast.walk(fnode) if isinstance(n, ast.Return) and isinstance(n.value, ast.Name)})
+
+
+def last_data_column_contract():
+    """_find_last_data_column: no cell right of the returned (1-based) column carries data, in any row -- the column trimming
+    removes empty cells only.  Outer loop (rows, front to back): the candidate kept in the returned local covers the rows
+    visited; inner loop (cells of one row, back to front, left by `break` at the first cell with data): the cells behind the
+    cursor are empty and the candidate is untouched."""
+    def cells_right_empty(rows, upto, col):
+        k, j = z3.Int("k!ldc"), z3.Int("j!ldc")
+        return z3.ForAll([k, j], z3.Implies(z3.And(k >= 0, k < upto, j >= col, j >= 0, j < rows.elem(k).length),
+                                            z3.Not(CELL_NE(rows.elem(k).elem(j).t))))
+
+    def ens(c):
+        rows = c.args["rows"]
+        r = ops.int_term(c.result)
+        return z3.And(r >= 0, cells_right_empty(rows, rows.length, r))
+
+    def ints(lc, names):
+        out = []
+        for v in names:
+            cur, ent = lc.st.lookup(v), lc.entry.lookup(v)
+            if isinstance(cur, VInt) and not isinstance(cur, VBool):
+                out.append((v, ops.int_term(cur), ops.int_term(ent) if isinstance(ent, VInt) else None))
+        return out
+
+    def inv_rows(names):
+        def f(lc):
+            rows = lc.entry.lookup("rows")
+            parts = [z3.And(t >= 0, cells_right_empty(rows, lc.i, t)) for _v, t, _e in ints(lc, names)]
+            return Conj([("cells-right-of-the-candidate-are-empty", z3.And(*parts) if parts else z3.BoolVal(True))])
+        return f
+
+    def inv_cells(names, row_name):
+        def f(lc):
+            row = lc.entry.lookup(row_name)
+            if not isinstance(row, VSeq):
+                return Conj([("cells-behind-are-empty", z3.BoolVal(False))])
+            j = z3.Int("j!ldk")
+            n = row.length
+            behind = z3.ForAll([j], z3.Implies(z3.And(j > n - 1 - lc.i, j >= 0, j < n), z3.Not(CELL_NE(row.elem(j).t))))
+            frame = [t == e for _v, t, e in ints(lc, names) if e is not None]
+            return Conj([("cells-behind-are-empty", z3.And(behind, *frame))])
+        return f
+
+    c_ = FnContract(
+        target=f"{XLSX}::_find_last_data_column",
+        params=[("rows", p_rows())],
+        ensures=[("no-data-right-of-the-returned-column", ens)],
+        raises=[],
+        loops={},
+        note="empty trailing columns only are trimmed",
+    )
+    cache = {}
+
+    def finder(ex, fnode, node):
+        if not isinstance(node, ast.For):
+            return None
+        if id(node) in cache:
+            return cache[id(node)]
+        names = returned_names(fnode)
+        sp = None
+        if iterates(fnode, node.iter, ("name", "rows")):
+            sp = with_counters(LoopSpec(inv=inv_rows(names), label="rows"), node)
+        elif isinstance(node.iter, ast.Call) and ast.unparse(node.iter.func) == "range":
+            # the cells of ONE row, walked by index from the back: the row is the sequence whose len() bounds the range
+            lens = [a.args[0].id for a in ast.walk(node.iter) if isinstance(a, ast.Call) and isinstance(a.func, ast.Name) and a.func.id == "len"
+                    and len(a.args) == 1 and isinstance(a.args[0], ast.Name)]
+            if len(lens) == 1:
+                sp = with_counters(LoopSpec(inv=inv_cells(names, lens[0]), label="cells"), node)
+        cache[id(node)] = sp
+        return sp
+    c_.loop_finder = finder
+    c_.loop_obligations = [(k_, lab) for k_ in ("inv-init", "inv-preserve")
+                           for lab in ("rows.cells-right-of-the-candidate-are-empty", "cells.cells-behind-are-empty")]
     return c_
 
 
@@ -1379,6 +1487,7 @@ def contracts(reg):
     ET.install(reg)
     out.append(parse_spine_contract())
     out.append(last_data_row_contract())
+    out.append(last_data_column_contract())
     out.append(cell_non_empty_assumed())
     # e-mail glue shared with C16 (message boundaries and the body text that becomes the unit are part of both properties): the
     # mailbox splitter and the .eml body assembly are verified here under C16's contracts (with C16's
